@@ -50,6 +50,8 @@ class AllocGen:
             # a join: one value that is one of two buffers (same type) depending on a run-time condition
             a = r.choice(self.refs)
             same = [x for x in self.refs if x != a and self.types[x] == self.types[a]]
+            other = [x for x in same if self.site_of[x] != self.site_of[a]]  # prefer a join of two different allocations
+            same = other or same
             if not same:
                 k = "use"
             else:
@@ -64,6 +66,10 @@ class AllocGen:
             nm = self.fresh("b")
             el = r.choice(list(ELB))
             n = r.choice([3, 4, 5, 8, 16, 16, 24, 64])
+            if self.allocs and r.random() < 0.4:
+                # the same type as an earlier buffer, so that the two can be joined (select / if / loop-carried)
+                prev = self.types[r.choice(self.allocs)]
+                n, el = int(prev.split("<")[1].split("x")[0]), prev.split("x")[1].split(",")[0]
             self.tag += 1
             space = "L3" if self.two_mem and r.random() < 0.35 else "L1"
             self.types[nm] = f'memref<{n}x{el}, "{space}">'
@@ -172,8 +178,11 @@ def emit(ast, p=(0, 0), fname="f", wrap=True) -> str:
                     e(ind, "}")
                 elif s.get("via") == "for":
                     # a loop-carried buffer: the loop result is %a after zero trips, %b otherwise
+                    # (the trip count depends on a function argument so that canonicalize cannot fold the loop away:
+                    # 0 trips if the condition holds, s["trips"] otherwise)
                     ty = T[s["name"]]
-                    e(ind, f'{s["name"]} = scf.for %q{s["name"][1:]} = %c0 to %c{s["trips"]} step %c1 iter_args(%m{s["name"][1:]} = {s["a"]}) -> ({ty}) {{')
+                    e(ind, f'%ub{s["name"][1:]} = arith.select %p{s["cond"]}, %c0, %c{max(1, s["trips"])} : index')
+                    e(ind, f'{s["name"]} = scf.for %q{s["name"][1:]} = %c0 to %ub{s["name"][1:]} step %c1 iter_args(%m{s["name"][1:]} = {s["a"]}) -> ({ty}) {{')
                     e(ind + 1, f'scf.yield {s["b"]} : {ty}')
                     e(ind, "}")
                 else:
@@ -204,7 +213,7 @@ def emit(ast, p=(0, 0), fname="f", wrap=True) -> str:
             elif s["k"] in ("view", "cast"):
                 site_of_name[s["name"]] = site_of_name.get(s["src"])
             elif s["k"] == "select":
-                first = (s["trips"] == 0) if s.get("via") == "for" else (True if s.get("via") == "while" else p[s["cond"]])
+                first = True if s.get("via") == "while" else p[s["cond"]]  # "for": zero trips iff the condition holds
                 site_of_name[s["name"]] = site_of_name.get(s["a"] if first else s["b"])
                 joined[s["name"]] = site_of_name[s["name"]]
             for key in ("body", "then", "else"):
